@@ -93,6 +93,17 @@ def replay_pit_batch(ctx, metrics, cases, k):
     obs = np.array([c["obs"] for c in cases], dtype=float)
     ens = np.array([c["ens"] for c in cases], dtype=float)
     p, _ = metrics.pit(obs, ens, random=False)
+    if len(obs) >= 2:
+        # observations as an [n,1] column (a documented input shape): the same values
+        try:
+            pc, _ = metrics.pit(obs[:, None], ens, random=False)
+            if not np.array_equal(np.asarray(pc), np.asarray(p), equal_nan=True):
+                ctx.violation("pit:column-shape", "pit %s for an [n,1] column of observations, %s for the same values as a vector" %
+                              (np.asarray(pc).tolist(), np.asarray(p).tolist()), {"obs": obs.tolist(), "ens": ens.tolist()})
+                return
+        except Exception as e:
+            ctx.violation("pit:column-shape", "%r for an [n,1] column of observations" % e, {"obs": obs.tolist(), "ens": ens.tolist()})
+            return
     for i, c in enumerate(cases):
         if not (0 <= p[i] <= 1) or (c["tied"] == 0 and not rat_close(p[i], c["rank"]) and False):
             ctx.violation("pit:range", "pit=%r" % p[i], {"obs": obs.tolist(), "ens": ens.tolist(), "row": i})
